@@ -1,5 +1,124 @@
-"""Closed-world syntactic scans that accompany the contract proofs (DESIGN.md 4.3, C11)."""
+"""Closed-world syntactic scans that accompany the contract proofs (DESIGN.md 4.3, C11).
+
+The contracts decide the discipline of every call that goes through a stub; these scans make
+sure there is no call *outside* that world: every path-taking / descriptor-juggling call site
+in /repo/src (tests excluded) must be in the reviewed inventory /verif/scans/inventory.json,
+where each entry names the unit whose contract covers it (or says why it needs none).
+A call site that is not in the inventory makes the check undecided (exit 2), never an alarm.
+"""
+import json
+import os
+import re
+
+VERIF = os.path.dirname(os.path.dirname(os.path.abspath(__file__)))
+
+PATTERNS = {
+    "C05": [r"\bsyscalls::(\w+)\s*\(", r"\brustix_fs::(\w+)\s*\(", r"\brustix_mount::(\w+)\s*\(", r"\blibc::(syscall)\s*\(",
+            r"\bfs::(read_link|remove_file|remove_dir|remove_dir_all|rename|create_dir|create_dir_all|File|OpenOptions|hard_link|copy|metadata|symlink_metadata|read_dir|canonicalize)\b",
+            r"\b(Dir::read_from)\s*\(", r"\.(try_clone_to_owned)\s*\(", r"\bFile::(open|create)\s*\(", r"\b(OpenOptions)::new"],
+    "C11": [r"\b(from_raw_fd)\s*\(", r"\.(into_raw_fd)\s*\(", r"\b(borrow_raw)\s*\(", r"\bmem::(forget)\s*\(", r"\b(ManuallyDrop)\b",
+            r"\bBox::(leak|from_raw|into_raw)\s*\(", r"\.(into_raw)\s*\(", r"\blibc::(close|dup|dup2|dup3)\s*\("],
+}
+IGNORED = {"AT_FDCWD", "BADFD", "Error", "OpenHow", "FrozenFd", "OPENAT2_IS_SUPPORTED", "RENAME_FLAGS_SUPPORTED"}
+
+
+def strip_tests(text):
+    """drop `#[cfg(test)] mod x { ... }` blocks and #[cfg(test)] items (brace matching)"""
+    out = []
+    i = 0
+    while True:
+        m = re.search(r"#\[cfg\(test\)\]", text[i:])
+        if not m:
+            out.append(text[i:])
+            break
+        s = i + m.start()
+        out.append(text[i:s])
+        # skip to the end of the following item
+        j = text.find("{", s)
+        k = text.find(";", s)
+        if k != -1 and (j == -1 or k < j):
+            i = k + 1
+            continue
+        depth = 0
+        p = j
+        while p < len(text):
+            c = text[p]
+            if c == "{":
+                depth += 1
+            elif c == "}":
+                depth -= 1
+                if depth == 0:
+                    break
+            p += 1
+        # keep line structure
+        out.append("\n" * text[s:p + 1].count("\n"))
+        i = p + 1
+    return "".join(out)
+
+
+def strip_comments(text):
+    text = re.sub(r"//[^\n]*", "", text)
+    text = re.sub(r"(?ms)^\s*(pub(\([a-z]+\))?\s+)?use\s[^;]*;", lambda m: "\n" * m.group(0).count("\n"), text)
+    return re.sub(r"/\*.*?\*/", lambda m: "\n" * m.group(0).count("\n"), text, flags=re.S)
+
+
+def enclosing_fn(text, pos):
+    best = None
+    for m in re.finditer(r"\bfn\s+(\w+)", text[:pos]):
+        best = m.group(1)
+    return best or "<static>"
+
+
+def collect(repo, prop):
+    sites = {}
+    src = os.path.join(repo, "src")
+    for root, dirs, files in os.walk(src):
+        if os.path.relpath(root, src).split(os.sep)[0] == "tests":
+            continue
+        for f in files:
+            if not f.endswith(".rs") or f == "tests.rs":
+                continue
+            p = os.path.join(root, f)
+            rel = os.path.relpath(p, repo)
+            text = strip_comments(strip_tests(open(p).read()))
+            for pat in PATTERNS[prop]:
+                for m in re.finditer(pat, text):
+                    name = m.group(1)
+                    if name in IGNORED:
+                        continue
+                    key = "%s::%s::%s" % (rel, enclosing_fn(text, m.start()), name)
+                    sites[key] = sites.get(key, 0) + 1
+    return sites
 
 
 def run(prop, repo, idx):
-    return []
+    if prop not in PATTERNS:
+        return []
+    inv_path = os.path.join(VERIF, "scans", "inventory.json")
+    inv = json.load(open(inv_path)) if os.path.exists(inv_path) else {}
+    expected = inv.get(prop, {})
+    got = collect(repo, prop)
+    res = []
+    unknown = []
+    for k, n in sorted(got.items()):
+        e = expected.get(k)
+        if e is None or e.get("count", 0) < n:
+            unknown.append("%s x%d" % (k, n))
+    if unknown:
+        res.append({"scan": prop + ".closed_world", "status": "undecided",
+                    "what": "call sites outside the reviewed inventory (not under any contract): " + "; ".join(unknown[:12]),
+                    "label": prop + ".scan.uncovered_call_site"})
+    else:
+        res.append({"scan": prop + ".closed_world", "status": "ok",
+                    "what": "%d call-site kinds (%d occurrences) in src/ all in the reviewed inventory; covered by: %s" % (
+                        len(got), sum(got.values()), ", ".join(sorted(set(v.get("by", "?") for k, v in expected.items() if k in got)))),
+                    "label": prop + ".scan.closed_world"})
+    return res
+
+
+if __name__ == "__main__":
+    import sys
+    for prop in PATTERNS:
+        print(prop)
+        for k, n in sorted(collect("/repo", prop).items()):
+            print("   ", k, n)
